@@ -117,9 +117,11 @@ CHECKS.update({
             QUEUE_NOTE, "machine-checked proof (Coq 8.16) on a hand-written model + differential correspondence check",
             "DESIGN.md 8.C08"),
     "C09": ("proof",
-            "Coq theorems (Props/C09.v, 10): in every reachable state without a live handle, for every capacity, occupancy and "
+            "Coq theorems (Props/C09.v, 11): in every reachable state without a live handle, for every capacity, occupancy and "
             "outcome script, worker-side steps reach 'worker exited, everything accepted delivered, wrapped sink released'; "
-            "DropH is one non-blocking step in every state; refutations of the pinned tree (defect D3) for capacities 0, 1, 2.  "
+            "DropH is one non-blocking step in every state; c09_stack composes the queue machine with the line-buffering writer "
+            "(after the worker's exit a buffered wrapped sink has been driven with exactly the accepted metrics in order and "
+            "dropped: everything accepted left in whole lines exactly once); refutations of the pinned tree (defect D3) for capacities 0, 1, 2.  "
             "Correspondence: last drop at every occupancy 0..capacity+1 x capacities {0,1,2,3,unbounded} x outcome patterns, "
             "observing the wrapped sink's Drop and the latency of drop(); the last handle also goes away on a thread that is "
             "unwinding from a panic",
@@ -137,7 +139,8 @@ CHECKS.update({
             "Coq theorems (Props/C11.v, 11) for all outcome scripts over {ok, err, panic}: a panicking metric is consumed exactly "
             "once, all others are delivered once in order (commit + eventual delivery restated with panics, also with the stop "
             "pending), the sink keeps accepting, panics() = number of panics.  Correspondence: every outcome pattern of length "
-            "<= 5, with and without pending stop; the panic is raised inside the wrapped sink's emit",
+            "<= 5, with and without pending stop, and unbroken runs of 17/20/33/70 panics (or errors) followed by ordinary "
+            "traffic; the panic is raised inside the wrapped sink's emit",
             QUEUE_NOTE, "machine-checked proof (Coq 8.16) on a hand-written model + differential correspondence check",
             "DESIGN.md 8.C11"),
     "C15": ("proof",
